@@ -116,7 +116,7 @@ fn decode(tape: &[u32]) -> Case {
     let obj = OBJS[t.pick(7)];
     let rank3 = t.bool();
     let dims = if rank3 { vec![t.usize(1, 3), t.usize(1, 3), t.usize(1, 3)] } else { vec![t.usize(1, 16)] };
-    let clamp = match t.pick(6) {
+    let clamp = match t.pick(9) {
         0 => None,
         1 => Some((-1.0, 1.0)),
         2 => {
@@ -131,10 +131,13 @@ fn decode(tape: &[u32]) -> Case {
             let hi = -t.f32_in(0.05, 3.0);
             Some((hi - t.f32_in(0.0, 5.0), hi))
         } // excludes 0, negative
-        _ => {
+        5 => {
             let a = t.f32_in(-1e3, 0.0);
             Some((a, a + t.f32_in(0.0, 2e3)))
         }
+        6 => Some((f32::NEG_INFINITY, t.f32_in(-1.0, 1.0))), // one-sided: only an upper bound
+        7 => Some((t.f32_in(-1.0, 1.0), f32::INFINITY)),     // one-sided: only a lower bound
+        _ => Some((f32::NEG_INFINITY, f32::INFINITY)),
     };
     let class = t.pick(5) as u8;
     let seed = t.raw();
@@ -323,7 +326,7 @@ impl Prop for C06 {
         t.pick(60_000, 3_000_000)
     }
     fn rule(&self) -> String {
-        "tape-decoded (objective of 7, clamp in {none, [-1,1], lo=hi, positive interval excluding 0, negative interval excluding 0, wide}, rank: vector 1..16 or c x h x w <= 3x3x3, content class: interior / one-hot targets / boundaries (exact 0, 1, eps, 1-eps, eps +- 2 ulp, denormals, 1e-7 multiples) / p == t / mixed for the probability objectives; O(1), |v| <= 1e4, equal-or-1-ulp-apart, dyadic, mixed magnitudes for the regression objectives). Oracle: documented formulas in f64, finiteness, numerical derivative of the reference loss (AE, MSE, BCE, KL), 3-D == flat bitwise, clamped == clamp(unclamped) bitwise. Non-trivial: >= 2 elements and (a boundary/equal element, or a clamp active on some and inactive on other components, or rank 3). Distinct = (objective, shape, clamp bits, content class, boundary flag, seed mod 64).".into()
+        "tape-decoded (objective of 7, clamp in {none, [-1,1], lo=hi, positive interval excluding 0, negative interval excluding 0, wide, (-inf, x], [x, +inf), (-inf, +inf)}, rank: vector 1..16 or c x h x w <= 3x3x3, content class: interior / one-hot targets / boundaries (exact 0, 1, eps, 1-eps, eps +- 2 ulp, denormals, 1e-7 multiples) / p == t / mixed for the probability objectives; O(1), |v| <= 1e4, equal-or-1-ulp-apart, dyadic, mixed magnitudes for the regression objectives). Oracle: documented formulas in f64, finiteness, numerical derivative of the reference loss (AE, MSE, BCE, KL), 3-D == flat bitwise, clamped == clamp(unclamped) bitwise. Non-trivial: >= 2 elements and (a boundary/equal element, or a clamp active on some and inactive on other components, or rank 3). Distinct = (objective, shape, clamp bits, content class, boundary flag, seed mod 64).".into()
     }
     fn assumptions(&self) -> Vec<String> {
         vec![
